@@ -10,6 +10,7 @@ exact (NaN, -0.0, subnormals survive the JSON transport).  Property names are ne
 """
 import json
 import math
+import re
 import os
 import signal
 import struct
@@ -988,10 +989,19 @@ def walk_objects(s):
         yield from walk_objects(s["items"])
 
 
+REPAIRED = [("repaired", "rejected at construction")]
+
+
 def oracle_construct_valid(schema, cons):
-    """a schema built by the rules of docs/metadata.md must be accepted"""
+    """a schema built by the rules of docs/metadata.md must be accepted.  Schemas of the finding
+    classes F9a / F9b / F9f may instead be *refused* with MetadataSchemaValidationError (that is
+    the proposed repair): then there is nothing further to check (REPAIRED)."""
     if cons == "ok":
         return []
+    if cons == SCHEMA_ERR:
+        has, zero, nontail = exhaust_info(schema)
+        if zero or nontail or has_fmt(schema, lambda s: re.fullmatch(r"0+p", str(s.get("binaryFormat", "")))):
+            return REPAIRED
     names = set()
     for o in walk_objects(schema):
         names |= set(o.get("properties", {}))
@@ -1022,7 +1032,7 @@ class StructFamily(Family):
     def oracle(self, case, obs):
         out = oracle_construct_valid(case["schema"], obs["construct"])
         if out:
-            return out
+            return [] if out is REPAIRED else out
         for tv, row in zip(case["values"], obs["rows"]):
             out += oracle_row(case["schema"], tv, row)
         out += oracle_str(case, obs)
@@ -1586,7 +1596,7 @@ class TablePaths(StructFamily):
     def oracle(self, case, obs):
         out = oracle_construct_valid(case["schema"], obs["construct"])
         if out:
-            return out
+            return [] if out is REPAIRED else out
         if not obs["schema_same"]:
             out.append(("table-schema-roundtrip", "table.metadata_schema differs from the schema that was set"))
         if "ts" in obs:
@@ -1756,11 +1766,13 @@ class NumpyView(Family):
     def oracle(self, case, obs):
         out = oracle_construct_valid(case["schema"], obs["construct"])
         if out:
-            return out
+            return [] if out is REPAIRED else out
         s = case["schema"]
         if "add_row" in obs:
             return [("numpy-valid-row-rejected", "add_row failed: %r" % (obs["add_row"],))]
         exp = case.get("expect")
+        if exp == "null-without-format" and "view" not in obs:
+            exp = None
         if exp == "unsupported":
             if "view" not in obs:
                 return [("numpy-unsupported-schema-viewed", "a schema documented as unsupported produced a structured array")]
@@ -2118,7 +2130,7 @@ class StructDecodeBytes(StructFamily):
     def oracle(self, case, obs):
         out = oracle_construct_valid(case["schema"], obs["construct"])
         if out:
-            return out
+            return [] if out is REPAIRED else out
         has, zero, nontail = exhaust_info(case["schema"])
         for b, d in zip(case["bufs"], obs["decs"]):
             if d == "HANG":
